@@ -131,7 +131,10 @@ Definition afm_rel_ok (r : relation) : bool :=
   | [] => false
   | _ => (0 <=? r_min r)%Z && (0 <=? r_max r)%Z      (* any non-negative cardinality, also for one child *)
   end.
-Definition afm_val_ok (v : aval) : bool := match v with VInt z => (0 <=? z)%Z | VStr _ => true | _ => false end.
+(* a float is carried as its repr; that the parser side supplies repr(float(text)) = text for the writer's own
+   text is part of the parser premise (validated by suite P-afm) *)
+Definition afm_val_ok (v : aval) : bool :=
+  match v with VInt z => (0 <=? z)%Z | VStr _ => true | VFloat _ => true | _ => false end.
 Definition afm_attr_ok (a : attr) : bool :=
   afm_val_ok (a_default a) && afm_val_ok (a_null a) &&
   match a_dom a with
@@ -1467,6 +1470,7 @@ Lemma afm_value_roundtrip v : afm_val_ok v = true ->
 Proof.
   destruct v as [|b|z|r|s|l|kv]; cbn [afm_val_ok]; intros H; try discriminate.
   - exists (AvInt (z_to_string z)). split; [reflexivity|]. cbn [afm_value_aval]. rewrite afm_to_int_z. reflexivity.
+  - exists (AvDouble r r). split; reflexivity.
   - exists (AvText s). split; reflexivity.
 Qed.
 
